@@ -1,6 +1,7 @@
 """Driver machinery: workers, Hypothesis wiring, replay files, known findings, evidence."""
 import hashlib
 import json
+import struct
 import mmap
 import multiprocessing as mp
 import os
@@ -126,9 +127,11 @@ class Ctx:
         j = self.journal
         if j is not None:
             data = json.dumps({"subcheck": self.sub, "config": self.cfg, "case": enc(case)}).encode()
-            if len(data) + 8 <= len(j):
+            if len(data) + 8 <= len(j) - 16:
                 j[8:8 + len(data)] = data
                 j[0:8] = len(data).to_bytes(8, "little")
+            # heartbeat for the parent's watchdog: when this case started
+            j[len(j) - 16:len(j) - 8] = struct.pack("<d", time.time())
 
     def count(self, case, nontrivial, cls=None):
         """Record one executed case. nontrivial: met the property's stated rule."""
@@ -235,17 +238,29 @@ def _worker(mod, pid, tier, vseed, worker, nworkers, only_sub, conn, journal=Non
                     continue
                 fail = _run_sub(ctx, sub, cfg, n, lambda c: libmod.get(*(c.split(":") + [None])[:2]))
                 if fail is not None:
-                    failures.append(fail)
+                    # reported at once: a later sub-check that never returns must not swallow it
+                    (s_, c_, case_, v_) = fail
+                    conn.send(("partial", (s_, c_, enc(case_), v_.sig, v_.msg)))
         out = {
             "evaluations": ctx.evaluations, "nontrivial": ctx.nontrivial, "classes": ctx.classes, "per_sub": ctx.per_sub,
             "per_cfg": ctx.per_cfg, "samples": ctx.samples, "known_hits": ctx.known_hits, "extra": ctx.extra,
             "failures": [(s, c, enc(case), v.sig, v.msg) for (s, c, case, v) in failures],
         }
+        if journal is not None:
+            journal[len(journal) - 8:] = b"finished"
         conn.send(("ok", out))
     except BaseException:
+        if journal is not None:
+            journal[len(journal) - 8:] = b"finished"
         conn.send(("error", traceback.format_exc()))
     finally:
         conn.close()
+
+
+def hang_seconds():
+    """A library call that has not returned after this many seconds counts as not returning at all (cases take milliseconds to a
+    second or two; the bound is a non-termination detector, not a performance expectation)."""
+    return float(os.environ.get("VERIF_HANG_S", "150") or "150")
 
 
 def replay_case(mod, pid, path, times=3, quiet=False):
@@ -286,14 +301,32 @@ def replay_case(mod, pid, path, times=3, quiet=False):
             os._exit(code)
         os.close(w)
         data = b""
+        hung = [False]
+        limit = hang_seconds() / 2
+        deadline = time.time() + limit
+        import select
         while True:
+            left = deadline - time.time()
+            if left <= 0:
+                hung[0] = True
+                try:
+                    os.kill(child, 9)
+                except OSError:
+                    pass
+                break
+            rd, _, _ = select.select([r], [], [], min(left, 5.0))
+            if not rd:
+                continue
             chunk = os.read(r, 65536)
             if not chunk:
                 break
             data += chunk
         os.close(r)
         _, status = os.waitpid(child, 0)
-        if os.WIFSIGNALED(status):
+        if hung[0]:
+            fails += 1
+            msg = "%s/hang: the library call did not return within %.0f s on this case (cases take milliseconds)" % (sub.name, limit)
+        elif os.WIFSIGNALED(status):
             fails += 1
             msg = "%s/crash: library call terminated by signal %d" % (sub.name, os.WTERMSIG(status))
         elif os.WEXITSTATUS(status) == 1:
@@ -356,12 +389,46 @@ def run_property(mod, pid, tier, vseed, nworkers=None, only_sub=None, extra_stat
            "known_hits": Counter(), "failures": [], "extra": {}}
     errors = []
     crashes = []
-    for p, pc, jr in procs:
-        try:
-            kind, out = pc.recv()
-        except EOFError:
-            kind, out = "crash", None
+    hangs = []
+    # collect results as they arrive; meanwhile watch the heartbeat each worker writes when it starts a case
+    from multiprocessing.connection import wait as mp_wait
+    results = {}
+    pending = {pc: (i, p, jr) for i, (p, pc, jr) in enumerate(procs)}
+    limit = hang_seconds()
+    while pending:
+        ready = mp_wait(list(pending), timeout=5.0)
+        for pc in ready:
+            i, p, jr = pending[pc]
+            try:
+                kind, out = pc.recv()
+            except EOFError:
+                kind, out = "crash", None
+            if kind == "partial":
+                agg["failures"].append(out)
+                continue
+            results[i] = (kind, out)
+            del pending[pc]
+        now = time.time()
+        for pc, (i, p, jr) in list(pending.items()):
+            if bytes(jr[len(jr) - 8:]) == b"finished":
+                continue
+            ts = struct.unpack("<d", bytes(jr[len(jr) - 16:len(jr) - 8]))[0]
+            if ts > 0 and now - ts > limit and p.is_alive():
+                n = int.from_bytes(jr[0:8], "little")
+                try:
+                    os.kill(p.pid, 9)
+                except OSError:
+                    pass
+                if n:
+                    j = json.loads(bytes(jr[8:8 + n]).decode())
+                    hangs.append((j["subcheck"], j["config"], j["case"], now - ts))
+                results[i] = ("hang", None)
+                del pending[pc]
+    for i, (p, pc, jr) in enumerate(procs):
+        kind, out = results[i]
         p.join()
+        if kind == "hang":
+            continue
         if kind == "crash":
             n = int.from_bytes(jr[0:8], "little")
             if n == 0:
@@ -401,6 +468,8 @@ def run_property(mod, pid, tier, vseed, nworkers=None, only_sub=None, extra_stat
     if errors:
         sys.stderr.write("HARNESS ERROR in %s:\n%s\n" % (pid, errors[0]))
         return 2
+    for (s_, c_, case_enc, secs) in hangs:
+        agg["failures"].append((s_, c_, case_enc, "%s/hang" % s_, "the library call did not return within %.0f s on this case (cases take milliseconds): worker stopped by the watchdog" % secs))
     for (s_, c_, case_enc, code) in crashes:
         what = "signal %d" % -code if code is not None and code < 0 else "exit code %s" % code
         agg["failures"].append((s_, c_, case_enc, "%s/crash" % s_, "the library call did not return: worker terminated by %s (memory fault / sanitizer abort) on this case" % what))
